@@ -20,6 +20,123 @@ def write_if_changed(path, content):
             f.write(content)
 
 
+def strip_rust(src):
+    """Remove comments; blank out string/char literal contents (keeps offsets roughly, keeps braces balanced)."""
+    out = []
+    i, n = 0, len(src)
+    while i < n:
+        c = src[i]
+        if src.startswith("//", i):
+            j = src.find("\n", i)
+            j = n if j < 0 else j
+            i = j
+        elif src.startswith("/*", i):
+            j = src.find("*/", i + 2)
+            j = n if j < 0 else j + 2
+            out.append(" " * 1)
+            i = j
+        elif c == '"':
+            j = i + 1
+            while j < n and src[j] != '"':
+                j += 2 if src[j] == "\\" else 1
+            out.append('""')
+            i = j + 1
+        elif c == "'" and i + 2 < n and (src[i + 2] == "'" or (src[i + 1] == "\\" and src.find("'", i + 2) - i <= 4)):
+            j = src.find("'", i + 2 if src[i + 1] == "\\" else i + 1)
+            out.append("' '")
+            i = j + 1
+        else:
+            out.append(c)
+            i += 1
+    return "".join(out)
+
+
+def block_at(src, open_idx):
+    """Text of the brace block that opens at src[open_idx] == '{' (inclusive)."""
+    depth = 0
+    for j in range(open_idx, len(src)):
+        if src[j] == "{":
+            depth += 1
+        elif src[j] == "}":
+            depth -= 1
+            if depth == 0:
+                return src[open_idx:j + 1]
+    raise ValueError("unbalanced braces")
+
+
+def fn_bodies(src):
+    """List of (impl header, fn name, body) for every fn inside an impl block."""
+    res = []
+    for m in re.finditer(r"\bimpl\b([^{;]*)\{", src):
+        header = " ".join(m.group(1).split())
+        body = block_at(src, m.end() - 1)
+        for f in re.finditer(r"\bfn\s+(\w+)\s*(<[^>]*>)?\s*\(", body):
+            k = body.find("{", f.end())
+            semi = body.find(";", f.end())
+            if k < 0 or (0 <= semi < k):
+                continue
+            res.append((header, f.group(1), block_at(body, k)))
+    return res
+
+
+def find_fn(bodies, impl_pat, name):
+    hits = [b for (h, n, b) in bodies if n == name and re.search(impl_pat, h)]
+    if len(hits) != 1:
+        raise SystemExit(f"extract: expected exactly one fn {name} in impl matching /{impl_pat}/, found {len(hits)}")
+    return hits[0]
+
+
+def order_of(body, alive_pats, avail_pats):
+    """Textual (= evaluation, for straight-line code) order of the liveness read and the amount read."""
+    def first(pats):
+        idx = [m.start() for p in pats for m in re.finditer(p, body)]
+        return min(idx) if idx else None
+    a, u = first(alive_pats), first(avail_pats)
+    if a is None and u is None:
+        return []
+    if u is None:
+        return ["alive"]
+    if a is None:
+        return ["avail"]
+    return ["alive", "avail"] if a < u else ["avail", "alive"]
+
+
+ALIVE = [r"strong_count", r"\.refcount\(\)", r"\.closed\(\)"]
+
+
+def gen_waits():
+    src = strip_rust(open(os.path.join(REPO, "src", "stream.rs")).read())
+    bodies = fn_bodies(src)
+    progs = {}
+    b = find_fn(bodies, r"^<T: Copy> ReadStream<T>$", "wait_for_read")
+    progs["readWait"] = order_of(b, ALIVE, [r"\.wait_for_read\("])
+    b = find_fn(bodies, r"^<T: Copy> WriteStream<T>$", "wait_for_write")
+    progs["writeWait"] = order_of(b, ALIVE, [r"\.wait_for_write\("])
+    b = find_fn(bodies, r"^<T: Copy> ReadStream<T>$", "eof")
+    progs["readEof"] = order_of(b, ALIVE, [r"\.read_buf\(", r"\.is_empty\(", r"\.wait_for_read\("])
+    b = find_fn(bodies, r"^<T> NCReadStream<T>$", "eof")
+    progs["ncReadEof"] = order_of(b, ALIVE, [r"\.lock\(\)", r"\.is_empty\(", r"\.len\("])
+    b = find_fn(bodies, r"StreamWait for NCReadStream<T>$", "wait")
+    # the guard returned by wait_timeout_while is bound to a name; while that binding is live
+    # (not dropped, same block) the liveness read happens under the lock: one atomic observation
+    g = re.search(r"let\s+(\w+)\s*=\s*\w+\s*\.wait_timeout_while", b)
+    order = order_of(b, ALIVE, [r"wait_timeout_while"])
+    if g and order == ["avail", "alive"] and not re.search(r"drop\(\s*%s\s*\)" % g.group(1), b) \
+            and re.search(r"\b%s\b[^;]*strong_count" % g.group(1), b):
+        order = ["both"]
+    progs["ncReadWait"] = order
+    b = find_fn(bodies, r"StreamWait for NCWriteStream<T>$", "wait")
+    progs["ncWriteWait"] = order_of(b, ALIVE, [r"\.lock\(\)", r"\.len\("])
+    lines = ["import RR.Model.Wait", "",
+             "/-! GENERATED by tools/extract.py from /repo/src/stream.rs on every run: the order in which each",
+             "end-of-stream decision reads the amount available and the peer's liveness. Do not edit. -/",
+             "namespace RR.Gen", "open RR.Wait", ""]
+    for k in ["readWait", "writeWait", "readEof", "ncReadWait", "ncReadEof", "ncWriteWait"]:
+        lines.append("def %s : List Obs := [%s]" % (k, ", ".join("." + x for x in progs[k])))
+    lines += ["", "end RR.Gen", ""]
+    return "Waits.lean", "\n".join(lines)
+
+
 def main():
     os.makedirs(GEN, exist_ok=True)
     gens = []
